@@ -110,9 +110,9 @@ def draw(rng, alg):
         n = rng.randint(1, min(k - 1, 6))
         case.update(k=k, values=[rng.randint(0 if rng.random() < 0.2 else 1, rng.choice([3, 50, 10 ** 9])) for _ in range(n)], cls="kgtn")
     elif kind == "planted":
-        k = rng.choice([2, 3, 4, 5, 6, 7, 8, 12, 20])
+        k = rng.choice([2, 3, 4, 5, 6, 7, 8, 12, 20, 33, 40, 65, 129])
         T = rng.choice([12, 30, 100, 1000, 10 ** 6, 2 ** 40])
-        vals = gen.planted_partition(rng, k, rng.randint(k, 48 if k <= 8 else 200), T)
+        vals = gen.planted_partition(rng, k, rng.randint(k, 48 if k <= 8 else max(200, 3 * k)), T)
         vals = gen.arrange(rng, vals, rng.choice(gen.ORDERS))
         case.update(k=k, values=vals, cls="planted", planted_T=T)
     elif kind == "lpt_tight":
